@@ -394,6 +394,68 @@ def dro_redeclare_sets(ctx, seed):
         ctx.count('dro-redeclare:agree:' + mode)
 
 
+def forall_histories(ctx, seed):
+    """(1) solve; c.forall(another set); solve == a fresh model with that set; (2) c1 = c.forall(S1); c2 = c.forall(S2) of a piecewise
+    constraint are two constraints with their own sets; (3) an integer variable declared after a first solve of a model whose first
+    formulation needed auxiliary columns keeps its type - each compared with the model built from scratch"""
+    import rsome as rso
+    from rsome import ro, dro
+    r = np.random.default_rng(seed)
+    ctx.search_cases += 1; ctx.evaluations += 1
+    kind = str(r.choice(['forall-after-solve', 'forall-after-solve-dro', 'piecewise-forall-twice', 'integer-var-after-solve']))
+    a = float(r.choice([1.0, 2.0, 0.5])); r1 = float(r.choice([1.0, 2.0])); r2 = r1 + float(r.choice([1.0, 3.0]))
+    case = {"forall_seed": seed, "kind": kind}
+
+    def sol(m, solver='auto'):
+        try:
+            return C.solve_model(m, solver)
+        except RuntimeError:
+            return None
+    try:
+        with C.quiet():
+            if kind == 'forall-after-solve':
+                m = ro.Model(); x = m.dvar(); z = m.rvar(); c = (x >= a * z); m.min(x)
+                m.st(c.forall(z >= 0, z <= r1)); sol(m)
+                c.forall(z >= 0, z <= r2)
+                ref = ro.Model(); x2 = ref.dvar(); z2 = ref.rvar(); ref.min(x2); ref.st((x2 >= a * z2).forall(z2 >= 0, z2 <= r2))
+            elif kind == 'forall-after-solve-dro':
+                m = dro.Model(1); x = m.dvar(); z = m.rvar()
+                f1 = m.ambiguity(); f1.suppset(z >= 0, z <= r1); f2 = m.ambiguity(); f2.suppset(z >= 0, z <= r2)
+                c = (x >= a * z); m.minsup(rso.E(x), f1); m.st(c.forall(f1)); sol(m)
+                c.forall(f2)
+                ref = dro.Model(1); x2 = ref.dvar(); z2 = ref.rvar()
+                g1 = ref.ambiguity(); g1.suppset(z2 >= 0, z2 <= r1); g2 = ref.ambiguity(); g2.suppset(z2 >= 0, z2 <= r2)
+                ref.minsup(rso.E(x2), g1); ref.st((x2 >= a * z2).forall(g2))
+            elif kind == 'piecewise-forall-twice':
+                m = ro.Model(); x = m.dvar(); z = m.rvar(); c = (rso.maxof(a * z - x, -a * z - x) <= 0)
+                c1 = c.forall(abs(z) <= r1); c2 = c.forall(abs(z) <= r2)
+                m.min(x); m.st(c1)
+                ref = ro.Model(); x2 = ref.dvar(); z2 = ref.rvar(); ref.min(x2)
+                ref.st((rso.maxof(a * z2 - x2, -a * z2 - x2) <= 0).forall(abs(z2) <= r1))
+            else:
+                def build(presolve):
+                    mm = ro.Model(); t = mm.dvar(); x = mm.dvar(2); mm.min(t)
+                    mm.st(rso.norm(x, 1) <= 1, t >= a * x.sum())
+                    if presolve:
+                        sol(mm, None)
+                    y = mm.dvar(vtype='I'); mm.st(y >= 0.3 * r1, t >= y)
+                    return mm
+                m = build(True); ref = build(False)
+        vA = sol(m, None if kind == 'integer-var-after-solve' else 'auto'); vB = sol(ref, None if kind == 'integer-var-after-solve' else 'auto')
+        if kind == 'integer-var-after-solve':
+            fA = m.do_math()
+            if len(fA.vtype) != fA.linear.shape[1]:
+                ctx.hit('history-misaligns-variable-types', {"vtype": len(fA.vtype), "cols": int(fA.linear.shape[1])}, case); return
+    except C.SkipCase:
+        ctx.count('forall-history:skipped'); return
+    except Exception as ex:
+        ctx.hit('forall-history-raises:' + kind + ':' + type(ex).__name__, {"error": str(ex)[:200]}, case); return
+    if (vA is None) != (vB is None) or (vA is not None and abs(vA - vB) > 1e-6 * (1 + abs(vB))):
+        ctx.hit('history-differs-from-scratch:' + kind, {"through_history": vA, "from_scratch": vB}, case)
+    else:
+        ctx.count('forall-history:agree:' + kind)
+
+
 def expression_reuse(ctx):
     """using an expression inside one construct does not change what it means elsewhere: `e <= 0.5` written before or
     after `E(maxof(e, ..))` is the same robust constraint"""
@@ -495,6 +557,8 @@ def run(ctx):
         resolve_after_add(ctx, int(ctx.rng.integers(2 ** 31)))
     for k in range(ctx.n(16, 200)):
         dro_adapt_after_solve(ctx, int(ctx.rng.integers(2 ** 31)))
+    for k in range(ctx.n(24, 300)):
+        forall_histories(ctx, int(ctx.rng.integers(2 ** 31)))
     for k in range(ctx.n(30, 300)):
         dro_redeclare_sets(ctx, int(ctx.rng.integers(2 ** 31)))
     for k in range(ctx.n(40, 400)):
@@ -512,6 +576,8 @@ def replay(rp):
         search_one(ctx, case['desc'], case['history_seed'])
     elif 'resolve_seed' in case:
         resolve_after_add(ctx, case['resolve_seed'])
+    elif 'forall_seed' in case:
+        forall_histories(ctx, case['forall_seed'])
     elif 'redeclare_seed' in case:
         dro_redeclare_sets(ctx, case['redeclare_seed'])
     elif 'dro_exptset_seed' in case:
